@@ -10,6 +10,7 @@ pub enum Case {
     Pt(crate::pt::Case),
     Trk(crate::trk::Case),
     Val(crate::val::Case),
+    Mass(crate::mass::Case),
 }
 
 impl Case {
@@ -18,10 +19,12 @@ impl Case {
             Case::Pt(c) => c.hash_seed,
             Case::Trk(c) => c.hash_seed,
             Case::Val(c) => c.hash_seed,
+            Case::Mass(c) => c.hash_seed,
         }
     }
     pub fn size(&self) -> usize {
         match self {
+            Case::Mass(c) => c.ops.len() + c.init_spec.is_some() as usize + match c.target { crate::mass::Target::Consist { n } => n, _ => 1 },
             Case::Val(c) => c.links.len() + if c.only.is_some() { 0 } else { 1000 },
             Case::Pt(c) => c.ops.len() + c.locos.len(),
             Case::Trk(c) => c.ops.len() + c.route.len() + c.links.iter().map(|l| l.elevs.len() + l.headings.len() + l.cat_power_limits.len() + l.speed_set.as_ref().map(|s| s.speed_limits.len() + s.speed_params.len()).unwrap_or(0)).sum::<usize>(),
@@ -53,7 +56,13 @@ const VAL_REAL: &[&str] = &["altrios_core::track::{Network, Link}::validate and 
 const VAL_STUB: &[&str] = &["reader: simulated Read with short reads, EINTR, hard error and early EOF at seeded bytes"];
 const VAL_RULE: &str = "a case = one generated valid network; every mutation kind (57 rule-breaking, 10 rule-keeping, 2 non-finite-extent) is applied at every link where it is expressible (enumerated), each judged by validate() and a 6 % seeded sample also by the yaml/json/reader/file/legacy-file load paths; distinct = distinct base networks (hash of the link data); non-trivial = network with >= 2 real links";
 
+const MASS_REAL: &[&str] = &["Mass trait setters/getters of FuelConverter, Generator, ReversibleEnergyStorage, Locomotive (set_mass, set_mu, set_force_max), Consist::mass/force_max (real code)", "SerdeAPI reload incl. init() consistency checks (real code)"];
+const MASS_STUB: &[&str] = &["no clock, no schedule: sequential reference-model comparison (weak fit, DESIGN 5)"];
+const MASS_RULE: &str = "a case = target (component / locomotive with or without redundant mass data / consist) built from a file + seeded sequence of 1-12 setter calls with all side-effect options, reloads and updates that must be rejected; distinct = distinct hash of (target, which fields known initially, fault kinds fired, probes); non-trivial = at least 2 ops";
+
 pub const PROPS: &[PropInfo] = &[
+    PropInfo { id: "C20", world: "mass", level: "exploration", quick_runs: 60_000, thorough_runs: 3_000_000, rule: MASS_RULE, real: MASS_REAL, stub: MASS_STUB,
+        assumptions: &["weak fit for this technique: only the rejected-update atomicity clause and the reload of setter-accepted states involve a fault; the algebra is a sequential reference-model comparison", "train static mass = cars + consist is checked in the trn world on built simulations"] },
     PropInfo { id: "C16", world: "val", level: "fault_enumeration", quick_runs: 1500, thorough_runs: 100_000, rule: VAL_RULE, real: VAL_REAL, stub: VAL_STUB,
         assumptions: &["reading fixed in DESIGN C16: speed sections may overlap and nest, catenary sections may not overlap", "infinite lengths / speeds / powers are outside what the rules decide: only 'no panic' is required for them", "lockout declarations are not part of the stated rules and are not mutated", "bincode is not an advertised network load path for this property (C17 covers it)"] },
     PropInfo { id: "C02", world: "trk", level: "exploration", quick_runs: 200_000, thorough_runs: 3_000_000, rule: TRK_RULE, real: TRK_REAL, stub: TRK_STUB,
@@ -83,6 +92,7 @@ pub fn generate(prop: &str, rng: &mut Rng, thorough: bool) -> Case {
         Some("pt") => Case::Pt(crate::pt::generate(rng, prop, thorough)),
         Some("trk") => Case::Trk(crate::trk::generate(rng, prop, thorough)),
         Some("val") => Case::Val(crate::val::generate(rng, prop, thorough)),
+        Some("mass") => Case::Mass(crate::mass::generate(rng, prop, thorough)),
         _ => panic!("no world for property {prop}"),
     }
 }
@@ -92,12 +102,14 @@ pub fn execute(case: &Case, ctx: &mut Ctx) {
         Case::Pt(c) => crate::pt::execute(c, ctx),
         Case::Trk(c) => crate::trk::execute(c, ctx),
         Case::Val(c) => crate::val::execute(c, ctx),
+        Case::Mass(c) => crate::mass::execute(c, ctx),
     }
 }
 
 pub fn shrink(case: &Case, v: &Violation) -> Vec<Case> {
     match case {
         Case::Val(c) => crate::val::shrink(c, v).into_iter().map(Case::Val).collect(),
+        Case::Mass(c) => crate::mass::shrink(c).into_iter().map(Case::Mass).collect(),
         Case::Pt(c) => crate::pt::shrink(c).into_iter().map(Case::Pt).collect(),
         Case::Trk(c) => crate::trk::shrink(c).into_iter().map(Case::Trk).collect(),
     }
@@ -115,6 +127,7 @@ pub fn panic_property(case: &Case, _layer: &str, location: &str) -> Option<&'sta
         }
         // building a path must never panic: speed-profile code -> C13, everything else in this world -> C06
         Case::Val(_) => Some("C16"),
+        Case::Mass(_) => Some("C20"),
         Case::Trk(_) => {
             if location.contains("speed_point.rs") || location.contains("speed_limit.rs") {
                 Some("C13")
